@@ -96,6 +96,19 @@ def walk (p : Bytes) : Nat → List Tree → List (Bytes × Bytes)
 /-- `AscendPrefix(prefix)` fully consumed (one pop per node at most) -/
 def ascendPrefix (t : Tree) (p : Bytes) : List (Bytes × Bytes) := walk p (size t + 1) (seek p t [])
 
+/-- the second loop when the consumer stops at its `n`-th item (`yield` returns false there; `n ≥ 1`) -/
+def walkN (p : Bytes) : Nat → Nat → List Tree → List (Bytes × Bytes)
+  | 0, _, _ => []
+  | _ + 1, _, [] => []
+  | fuel + 1, n, nil :: s => walkN p fuel n s
+  | fuel + 1, n, node _ k v _ r :: s =>
+    if Bytes.hasPrefix k p then
+      (if n ≤ 1 then [(k, v)] else (k, v) :: walkN p fuel (n - 1) (pushLeft r s))
+    else []
+
+/-- `for x := range AscendPrefix(p) { …; if seen == n { break } }` -/
+def ascendPrefixN (t : Tree) (p : Bytes) (n : Nat) : List (Bytes × Bytes) := walkN p (size t + 1) n (seek p t [])
+
 /-- in-place update through a retained reference: `n, ok := Get(k); n.Value = v; Put(n)` puts the very node the tree
 already holds (the links copied onto it are its own); the returned "replaced" node is that same node, so its value
 reads `v`. Nothing happens when the key is absent. -/
